@@ -269,4 +269,232 @@ theorem dispOps_hom (inp : Bytes) :
     exact Or.inl ⟨congrArg Prod.fst this, congrArg Prod.snd this⟩
 
 end
+
+/-! ### parser, stream, rewriter -/
+
+section
+variable {w : World γ} {c' : Controller γ'} {f : γ' → γ}
+
+/-- the world over `c'` -/
+def worldOf (w : World γ) (c' : Controller γ') : World γ' := ⟨w.tbl, w.tags, c'⟩
+
+local notation "w'" => worldOf w c'
+
+/-- related dispatchers -/
+def HR (f : γ' → γ) (d' : Disp γ') (d : Disp γ) : Prop := mapD f d' = d
+
+/-- related transform streams -/
+def SRh (f : γ' → γ) (s' : Stream γ') (s : Stream γ) : Prop :=
+  PR (HR f) s'.parser s.parser ∧ s'.buf = s.buf ∧ s'.hasBuffered = s.hasBuffered ∧ s'.cfg = s.cfg ∧
+  s'.bailOutRuns = s.bailOutRuns
+
+theorem SRh.disp {s' : Stream γ'} {s : Stream γ} (h : SRh f s' s) : HR f s'.disp s.disp := h.1.2.2.2.2.2.1
+
+theorem SRh.setDisp {s' : Stream γ'} {s : Stream γ} (h : SRh f s' s) {d' : Disp γ'} {d : Disp γ} (hd : HR f d' d) :
+    SRh f (s'.setDisp d') (s.setDisp d) := by
+  obtain ⟨⟨a, b, c, d0, e, _, g, i⟩, h2, h3, h4, h5⟩ := h
+  exact ⟨⟨a, b, c, d0, e, hd, g, i⟩, h2, h3, h4, h5⟩
+
+theorem SRh.mk' {p' : Parser (Disp γ')} {p : Parser (Disp γ)} (hp : PR (HR f) p' p) (b : Buf) (hb : Bool) (c : Settings) (n : Nat) :
+    SRh f ⟨p', b, hb, c, n⟩ ⟨p, b, hb, c, n⟩ := ⟨hp, rfl, rfl, rfl, rfl⟩
+
+theorem hr_flushForBailOut {d' : Disp γ'} {d : Disp γ} (sl : Bytes) (h : HR f d' d) :
+    HR f (match d'.flushForBailOut sl with | .ok d => d | .error _ => d')
+         (match d.flushForBailOut sl with | .ok d => d | .error _ => d) := by
+  unfold HR at *
+  subst h
+  cases d' with
+  | mk ctl sink rcs flags ee ltt gf pa tp tps enc ne =>
+    simp only [Disp.flushForBailOut, mapD]
+    cases checkedSlice sl ⟨rcs, sl.length⟩ with
+    | none => rfl
+    | some out =>
+      by_cases ho : out.isEmpty = true
+      · simp only [ho, if_true, mapD]
+      · simp only [ho, if_false, Bool.false_eq_true, mapD, Disp.push]
+
+theorem hr_flushRemaining {d' : Disp γ'} {d : Disp γ} (inp : Bytes) (consumed : Nat) (h : HR f d' d) :
+    (∃ e, d'.flushRemaining inp consumed = .error e ∧ d.flushRemaining inp consumed = .error e) ∨
+    (∃ a b, d'.flushRemaining inp consumed = .ok a ∧ d.flushRemaining inp consumed = .ok b ∧ HR f a b) := by
+  unfold HR at *
+  subst h
+  cases d' with
+  | mk ctl sink rcs flags ee ltt gf pa tp tps enc ne =>
+    simp only [Disp.flushRemaining, mapD]
+    cases ee with
+    | false => exact Or.inr ⟨_, _, rfl, rfl, rfl⟩
+    | true =>
+      simp only [if_true]
+      cases checkedSlice inp ⟨rcs, consumed⟩ with
+      | none => exact Or.inl ⟨_, rfl, rfl⟩
+      | some out =>
+        refine Or.inr ⟨_, _, rfl, rfl, ?_⟩
+        by_cases ho : out.isEmpty = true
+        · simp only [ho, if_true, mapD]
+        · simp only [ho, if_false, Bool.false_eq_true, mapD, Disp.push]
+
+variable (h : CtlHom c' w.ctl f)
+include h
+
+theorem hr_runBailOut {d' : Disp γ'} {d : Disp γ} (e : Err) (hd : HR f d' d) :
+    HR f (d'.runBailOut c' e) (d.runBailOut w.ctl e) := by
+  unfold HR at *
+  subst hd
+  have h1 := (h.bailOut d'.ctl e).1
+  have h2 := (h.bailOut d'.ctl e).2
+  simp only [Disp.runBailOut, mapD, ← h1, ← h2]
+
+theorem bail_hr {s' : Stream γ'} {s : Stream γ} (e : Err) (sl : List Bytes) (hs : SRh f s' s) :
+    SRh f (s'.bail w' e sl) (s.bail w e sl) := by
+  unfold Stream.bail Stream.shouldBailOutFor
+  rw [hs.2.2.2.1]
+  split
+  · have hfold : ∀ (sl : List Bytes) (d' : Disp γ') (d : Disp γ), HR f d' d →
+        HR f (sl.foldl (fun d sl => match d.flushForBailOut sl with | .ok d => d | .error _ => d) d')
+             (sl.foldl (fun d sl => match d.flushForBailOut sl with | .ok d => d | .error _ => d) d) := by
+      intro sl
+      induction sl with
+      | nil => intro d' d hd; exact hd
+      | cons a as ih => intro d' d hd; exact ih _ _ (hr_flushForBailOut a hd)
+    have := hs.setDisp (hfold sl _ _ (hr_runBailOut (w := w) h e hs.disp))
+    obtain ⟨a, b, c, d, e'⟩ := this
+    exact ⟨a, b, c, d, congrArg (· + 1) hs.2.2.2.2⟩
+  · exact hs
+
+theorem keepTail_hr {s' : Stream γ'} {s : Stream γ} (data chunk : Bytes) (consumed : Nat) (hs : SRh f s' s) :
+    SRh f (s'.keepTail w' data chunk consumed).1 (s.keepTail w data chunk consumed).1 ∧
+    (s'.keepTail w' data chunk consumed).2 = (s.keepTail w data chunk consumed).2 := by
+  obtain ⟨hp, hb, hh, hc, hn⟩ := hs
+  obtain ⟨p₁, buf₁, hb₁, cfg₁, n₁⟩ := s'
+  obtain ⟨p₂, buf₂, hb₂, cfg₂, n₂⟩ := s
+  simp only at hp hb hh hc hn
+  subst hb hh hc hn
+  unfold Stream.keepTail
+  simp only
+  by_cases hlt : consumed < chunk.length
+  · simp only [hlt, if_true]
+    cases hb₁ with
+    | true =>
+      simp only [if_true]
+      cases buf₁.shift consumed with
+      | some b => exact ⟨SRh.mk' hp _ _ _ _, by first | rfl | trivial⟩
+      | none => exact ⟨SRh.mk' hp _ _ _ _, by first | rfl | trivial⟩
+    | false =>
+      simp only [Bool.false_eq_true, if_false]
+      by_cases hi : (buf₁.initWith (List.drop consumed data)).2 = true
+      · simp only [hi, if_true]
+        exact ⟨SRh.mk' hp _ _ _ _, by first | rfl | trivial⟩
+      · simp only [hi, if_false]
+        exact ⟨bail_hr h _ _ (SRh.mk' hp _ _ _ _), by first | rfl | trivial⟩
+  · simp only [hlt, if_false]
+    exact ⟨SRh.mk' hp _ _ _ _, by first | rfl | trivial⟩
+
+variable (ht : EmitsChecked w.tbl = true)
+include ht
+
+/-- `Parser::parse` -/
+theorem parse_hr (inp : Bytes) (last : Bool) (p' : Parser (Disp γ')) (p : Parser (Disp γ)) (hp : PR (HR f) p' p) :
+    PR (HR f) (Parser.parse (w').env inp last p').1 (Parser.parse w.env inp last p).1 ∧
+    (Parser.parse (w').env inp last p').2 = (Parser.parse w.env inp last p).2 := by
+  rcases RelE.parse_relE (tbl := w.tbl) (cfg := w.tags) (inp := inp) (dispOps_hom h inp) ht last p' p hp with h1 | ⟨e, he, _⟩
+  · exact h1
+  · exact he.elim
+
+theorem write_tail_hr {s' : Stream γ'} {s : Stream γ} (data chunk : Bytes) (hs : SRh f s' s) :
+    SRh f (match (s'.parser.parse (w').env chunk false).2 with
+          | .error e => (({ s' with parser := (s'.parser.parse (w').env chunk false).1 } : Stream γ').bail w' e [chunk], Except.error e)
+          | .ok consumed =>
+            match ({ s' with parser := (s'.parser.parse (w').env chunk false).1 } : Stream γ').disp.flushRemaining chunk consumed with
+            | .error e => (({ s' with parser := (s'.parser.parse (w').env chunk false).1 } : Stream γ'), Except.error e)
+            | .ok d => (({ s' with parser := (s'.parser.parse (w').env chunk false).1 } : Stream γ').setDisp d).keepTail w' data chunk consumed).1
+       (match (s.parser.parse w.env chunk false).2 with
+          | .error e => (({ s with parser := (s.parser.parse w.env chunk false).1 } : Stream γ).bail w e [chunk], Except.error e)
+          | .ok consumed =>
+            match ({ s with parser := (s.parser.parse w.env chunk false).1 } : Stream γ).disp.flushRemaining chunk consumed with
+            | .error e => (({ s with parser := (s.parser.parse w.env chunk false).1 } : Stream γ), Except.error e)
+            | .ok d => (({ s with parser := (s.parser.parse w.env chunk false).1 } : Stream γ).setDisp d).keepTail w data chunk consumed).1 ∧
+    (match (s'.parser.parse (w').env chunk false).2 with
+          | .error e => (({ s' with parser := (s'.parser.parse (w').env chunk false).1 } : Stream γ').bail w' e [chunk], Except.error e)
+          | .ok consumed =>
+            match ({ s' with parser := (s'.parser.parse (w').env chunk false).1 } : Stream γ').disp.flushRemaining chunk consumed with
+            | .error e => (({ s' with parser := (s'.parser.parse (w').env chunk false).1 } : Stream γ'), Except.error e)
+            | .ok d => (({ s' with parser := (s'.parser.parse (w').env chunk false).1 } : Stream γ').setDisp d).keepTail w' data chunk consumed).2 =
+       (match (s.parser.parse w.env chunk false).2 with
+          | .error e => (({ s with parser := (s.parser.parse w.env chunk false).1 } : Stream γ).bail w e [chunk], Except.error e)
+          | .ok consumed =>
+            match ({ s with parser := (s.parser.parse w.env chunk false).1 } : Stream γ).disp.flushRemaining chunk consumed with
+            | .error e => (({ s with parser := (s.parser.parse w.env chunk false).1 } : Stream γ), Except.error e)
+            | .ok d => (({ s with parser := (s.parser.parse w.env chunk false).1 } : Stream γ).setDisp d).keepTail w data chunk consumed).2 := by
+  obtain ⟨hp, hb, hh, hc, hn⟩ := hs
+  obtain ⟨p₁, buf₁, hb₁, cfg₁, n₁⟩ := s'
+  obtain ⟨p₂, buf₂, hb₂, cfg₂, n₂⟩ := s
+  simp only at hp hb hh hc hn
+  subst hb hh hc hn
+  obtain ⟨hpr, hres⟩ := parse_hr h ht chunk false p₁ p₂ hp
+  simp only
+  rw [hres]
+  cases (Parser.parse w.env chunk false p₂).2 with
+  | error e => exact ⟨bail_hr h _ _ (SRh.mk' hpr _ _ _ _), by first | rfl | trivial⟩
+  | ok consumed =>
+    simp only
+    rcases hr_flushRemaining chunk consumed hpr.2.2.2.2.2.1 with ⟨e, e1, e2⟩ | ⟨a, b, e1, e2, hab⟩
+    · simp only [Stream.disp, e1, e2]
+      exact ⟨SRh.mk' hpr _ _ _ _, by first | rfl | trivial⟩
+    · simp only [Stream.disp, e1, e2]
+      exact keepTail_hr h _ _ _ ((SRh.mk' hpr _ _ _ _).setDisp hab)
+
+/-- **`TransformStream::write`** -/
+theorem write_hr {s' : Stream γ'} {s : Stream γ} (data : Bytes) (hs : SRh f s' s) :
+    SRh f (s'.write w' data).1 (s.write w data).1 ∧ (s'.write w' data).2 = (s.write w data).2 := by
+  obtain ⟨hp, hb, hh, hc, hn⟩ := hs
+  obtain ⟨p₁, buf₁, hb₁, cfg₁, n₁⟩ := s'
+  obtain ⟨p₂, buf₂, hb₂, cfg₂, n₂⟩ := s
+  simp only at hp hb hh hc hn
+  subst hb hh hc hn
+  unfold Stream.write Stream.chunkFor
+  cases hb₁ with
+  | true =>
+    simp only [if_true]
+    by_cases ha : (buf₁.append data).2 = true
+    · simp only [ha, if_true]
+      exact write_tail_hr h ht data _ (SRh.mk' hp _ _ _ _)
+    · simp only [ha, if_false]
+      exact ⟨bail_hr h _ _ (SRh.mk' hp _ _ _ _), by first | rfl | trivial⟩
+  | false =>
+    simp only [Bool.false_eq_true, if_false]
+    exact write_tail_hr h ht data _ (SRh.mk' hp _ _ _ _)
+
+/-- **`TransformStream::end`** -/
+theorem end_hr {s' : Stream γ'} {s : Stream γ} (hs : SRh f s' s) :
+    SRh f (s'.end w').1 (s.end w).1 ∧ (s'.end w').2 = (s.end w).2 := by
+  obtain ⟨hp, hb, hh, hc, hn⟩ := hs
+  obtain ⟨p₁, buf₁, hb₁, cfg₁, n₁⟩ := s'
+  obtain ⟨p₂, buf₂, hb₂, cfg₂, n₂⟩ := s
+  simp only at hp hb hh hc hn
+  subst hb hh hc hn
+  unfold Stream.end
+  simp only
+  generalize (if hb₁ = true then buf₁.data else []) = chunk
+  obtain ⟨hpr, hres⟩ := parse_hr h ht chunk true p₁ p₂ hp
+  rw [hres]
+  cases (Parser.parse w.env chunk true p₂).2 with
+  | error e => exact ⟨bail_hr h _ _ (SRh.mk' hpr _ _ _ _), by first | rfl | trivial⟩
+  | ok consumed =>
+    simp only
+    unfold Disp.finish
+    rcases hr_flushRemaining chunk chunk.length hpr.2.2.2.2.2.1 with ⟨e, e1, e2⟩ | ⟨a, b, e1, e2, hab⟩
+    · simp only [Stream.disp, e1, e2, DRes.ofExcept, DRes.bind]
+      exact ⟨(SRh.mk' hpr _ _ _ _).setDisp hpr.2.2.2.2.2.1, by first | rfl | trivial⟩
+    · simp only [Stream.disp, e1, e2, DRes.ofExcept, DRes.bind]
+      unfold HR at hab
+      subst hab
+      have h1 := (h.handleEnd a.ctl).1
+      have h2 := (h.handleEnd a.ctl).2
+      have hc : (mapD f a).ctl = f a.ctl := rfl
+      simp only [worldOf, hc, ← h2]
+      cases (c'.handleEnd a.ctl).2.2 with
+      | some err => exact ⟨(SRh.mk' hpr _ _ _ _).setDisp (by unfold HR; simp only [mapD, ← h1]), by first | rfl | trivial⟩
+      | none => exact ⟨(SRh.mk' hpr _ _ _ _).setDisp (by unfold HR; simp only [mapD, ← h1]), by first | rfl | trivial⟩
+
+end
 end LolHtml.Model.Hom
